@@ -13,175 +13,14 @@
   local introduced or inlined) keeps them valid; a change of the arithmetic breaks them; a Go
   construct outside the translator's subset removes the definition and breaks the build here.
 -/
-import Gostatix.Generated.Arith
-import Gostatix.Proofs.GoArith
-import Gostatix.Model.CMS
-import Gostatix.Model.HLL
-import Gostatix.Model.Cuckoo
-import Gostatix.Model.Bloom
-import Gostatix.Model.Murmur
--- commutativity lemmas are passed to `simp` so that an operand swap in the Go source keeps the
--- proofs valid; on the current sources some of them are not needed
-set_option linter.unusedSimpArgs false
-
+import Gostatix.Props.ArithTieCMS
+import Gostatix.Props.ArithTieHLL
+import Gostatix.Props.ArithTieCuckoo
+import Gostatix.Props.ArithTieBloom
 namespace Gostatix.ArithTie
-open Gostatix.Generated.Arith Gostatix.GoArith
 
-/-- closes `A % m = B % m` where `A`, `B` are the same sum of `toNat` products, reduced modulo
-    2^64 at different places and with the operands in any order (products become atoms of `omega`). -/
-local macro "mod64_congr" : tactic =>
-  `(tactic| (congr 1; (try simp only [Nat.mul_comm]); omega))
-
-/-- every kernel was translated (a readable error before the individual theorems fail). -/
+/-- every kernel named in extract/arith.go was translated (an unsupported Go construct is listed
+    in `Generated.Arith.unsupported` instead of becoming a definition) -/
 theorem all_kernels_translated : Generated.Arith.unsupported = [] := rfl
-
-/-! ### count-min sketch: `getPositions` -/
-
-/-- `positions[c] = uint((hash1 + uint64(c)*hash2) % uint64(cms.columns))` is `CMS.position`. -/
-theorem tie_cmsPosition (h1 h2 c cols : UInt64) (_hc : cols ≠ 0) :
-    (cmsPosition h1 h2 c cols).toNat = CMS.position h1.toNat h2.toNat c.toNat cols.toNat := by
-  simp only [cmsPosition, CMS.position, UInt64.toNat_mod, UInt64.toNat_add, UInt64.toNat_mul]
-  mod64_congr
-
-/-- the whole row list of `getPositions` (loop variable `c = 0 .. rows-1`, `rows < 2^64`). -/
-theorem tie_cmsPositionsOf (h1 h2 cols : UInt64) (rows : Nat) (hr : rows ≤ 2 ^ 64) (hc : cols ≠ 0) :
-    (List.range rows).map (fun c => (cmsPosition h1 h2 (UInt64.ofNat c) cols).toNat)
-      = CMS.positionsOf h1.toNat h2.toNat rows cols.toNat := by
-  unfold CMS.positionsOf
-  apply List.map_congr_left
-  intro c hcr
-  have hlt : c < UInt64.size := by
-    have := List.mem_range.1 hcr
-    show c < 2 ^ 64
-    omega
-  rw [tie_cmsPosition _ _ _ _ hc, UInt64.toNat_ofNat_of_lt' hlt]
-
-example : (cmsPosition 18446744073709551615 3 2 10).toNat = 5 := by decide
-example : CMS.position 18446744073709551615 3 2 10 = 5 := by decide
-
-/-! ### HyperLogLog: `getRegisterIndexAndCount` and the truncations of its callers -/
-
-theorem clz64_le (x : Nat) : HLL.clz64 x ≤ 64 := by unfold HLL.clz64; split <;> omega
-
-/-- `uint64(1 + bits.LeadingZeros64(hash << numBytesPerHash))` is `HLL.indexOf`, for EVERY
-    `numBytesPerHash` (for 64 and more both sides shift everything out and give 65). -/
-theorem tie_hllRegisterIndex (hash nb : UInt64) :
-    (hllRegisterIndex hash nb).toNat = HLL.indexOf hash.toNat nb.toNat := by
-  have h := clz64_le ((hash.toNat * 2 ^ nb.toNat) % 2 ^ 64)
-  simp [hllRegisterIndex, HLL.indexOf, toNat_clz64u, toNat_goShl] at h ⊢
-  omega
-
-/-- the `uint8(registerIndex)` of the Redis `Update` loses nothing (the index is at most 65). -/
-theorem tie_hllStoredIndexRedis (hash nb : UInt64) :
-    (hllStoredIndexRedis (hllRegisterIndex hash nb)).toNat = HLL.indexOf hash.toNat nb.toNat := by
-  have h := clz64_le ((hash.toNat * 2 ^ nb.toNat) % 2 ^ 64)
-  have h' := tie_hllRegisterIndex hash nb
-  simp only [HLL.indexOf] at h' ⊢
-  simp [hllStoredIndexRedis, toNat_trunc8, h'] at h ⊢
-  omega
-
-/-- `count := hash >> uint(32 - numBytesPerHash)`, before the callers' truncation, in the range
-    `numBytesPerHash ≤ 32` (p = log2 of the register count). -/
-theorem tie_hllCount (hash nb : UInt64) (hp : nb.toNat ≤ 32) :
-    (hllCount hash nb).toNat = hash.toNat / 2 ^ (32 - nb.toNat) := by
-  have hk : ((32 : UInt64) - nb).toNat = 32 - nb.toNat := by
-    rw [UInt64.toNat_sub]
-    have : (32 : UInt64).toNat = 32 := rfl
-    omega
-  simp [hllCount, toNat_goShr, hk]
-
-/-- in-memory `Update`: the stored `uint(uint8(count))` is `HLL.valueOf`. -/
-theorem tie_hllStoredValueMem (hash nb : UInt64) (hp : nb.toNat ≤ 32) :
-    (hllStoredValueMem (hllCount hash nb)).toNat = HLL.valueOf hash.toNat nb.toNat := by
-  have h := tie_hllCount hash nb hp
-  simp [hllStoredValueMem, toNat_trunc8, HLL.valueOf, h]
-
-/-- Redis `Update`: the `uint8(count)` passed to `updateRegisters` is `HLL.valueOf`. -/
-theorem tie_hllStoredValueRedis (hash nb : UInt64) (hp : nb.toNat ≤ 32) :
-    (hllStoredValueRedis (hllCount hash nb)).toNat = HLL.valueOf hash.toNat nb.toNat := by
-  have h := tie_hllCount hash nb hp
-  simp [hllStoredValueRedis, toNat_trunc8, HLL.valueOf, h]
-
-/-- outside the range (more than 2^32 registers) model and code differ: in Go `32 - p` wraps to a
-    shift count ≥ 64 and the count is 0, the `Nat` model truncates `32 - p` to 0. -/
-theorem hllValue_differs_above_32 :
-    (hllStoredValueMem (hllCount 1 33)).toNat = 0 ∧ HLL.valueOf 1 33 = 1 := by decide
-
-example : (hllRegisterIndex 1 4).toNat = 60 ∧ HLL.indexOf 1 4 = 60 := by decide
-example : (hllRegisterIndex 5 64).toNat = 65 ∧ HLL.indexOf 5 64 = 65 := by decide
-example : (hllStoredValueMem (hllCount 0xABCDEF0123456789 4)).toNat = 0x12
-    ∧ HLL.valueOf 0xABCDEF0123456789 4 = 0x12 := by decide
-
-/-! ### cuckoo filter: `getPositions` and the eviction loops -/
-
-/-- `firstIndex := hash % cuckooFilter.size`. -/
-theorem tie_cuckooFirstIndex (hash size : UInt64) (_hs : size ≠ 0) :
-    (cuckooFirstIndex hash size).toNat = hash.toNat % size.toNat := by
-  simp [cuckooFirstIndex]
-
-/-- `secondIndex := (firstIndex ^ secondHash) % cuckooFilter.size` is `Cuckoo.altOf` of the first
-    index, for any fingerprint hash function `H` with `H fp = secondHash`. -/
-theorem tie_cuckooSecondIndex {F : Type} (H : F → Nat) (fp : F) (hash secondHash size : UInt64)
-    (hH : H fp = secondHash.toNat) (_hs : size ≠ 0) :
-    (cuckooSecondIndex hash secondHash size).toNat
-      = Cuckoo.altOf H size.toNat (hash.toNat % size.toNat) fp := by
-  simp [cuckooSecondIndex, Cuckoo.altOf, hH, Nat.xor_comm]
-
-/-- `Cuckoo.positions` (the model of `getPositions` on the element bytes) computes exactly the
-    generated index expressions on the murmur hash words, when the fingerprint length is valid. -/
-theorem tie_cuckooPositions (size : UInt64) (fpl : Nat) (data : List UInt8) (_hs : size ≠ 0)
-    (hfpl : fpl ≤ (toString (Murmur.getHash data)).length) :
-    let hash := (Murmur.sum128 data).1
-    let r := Cuckoo.positions size.toNat fpl data
-    let secondHash := (Murmur.sum128 r.1.toUTF8.toList).1
-    r.2.1 = (cuckooFirstIndex hash size).toNat
-      ∧ r.2.2 = (cuckooSecondIndex hash secondHash size).toNat := by
-  have h : ¬ fpl > (toString (Murmur.getHash data)).length := by omega
-  simp only [Cuckoo.positions, h, ↓reduceIte]
-  simp [cuckooFirstIndex, cuckooSecondIndex, Cuckoo.hashStr, Murmur.getHash, Nat.xor_comm]
-
-/-- eviction loop of cuckoo_filter.go: `newIndex := (index ^ hash) % uint64(len(cuckooFilter.buckets))`
-    is `Cuckoo.altOf` with modulus `len(buckets)` (a slice length: an `int`, here its 64-bit pattern). -/
-theorem tie_cuckooKickIndexMem {F : Type} (H : F → Nat) (fp : F) (index hash len : UInt64)
-    (hH : H fp = hash.toNat) (_hl : len ≠ 0) :
-    (cuckooKickIndexMem index hash len).toNat = Cuckoo.altOf H len.toNat index.toNat fp := by
-  simp [cuckooKickIndexMem, Cuckoo.altOf, hH, Nat.xor_comm]
-
-/-- eviction loop of cuckoo_filter_redis.go: same expression, the modulus is the length of the
-    `buckets` MAP (`len(cuckooFilter.buckets)`), not the `size` field. -/
-theorem tie_cuckooKickIndexRedis {F : Type} (H : F → Nat) (fp : F) (index hash len : UInt64)
-    (hH : H fp = hash.toNat) (_hl : len ≠ 0) :
-    (cuckooKickIndexRedis index hash len).toNat = Cuckoo.altOf H len.toNat index.toNat fp := by
-  simp [cuckooKickIndexRedis, Cuckoo.altOf, hH, Nat.xor_comm]
-
-/-- the eviction step and the second index of `getPositions` are the same function when
-    `len(buckets) = size` (what the constructors establish; not checked by the translator). -/
-theorem cuckooKick_eq_second (hash secondHash size : UInt64) :
-    cuckooSecondIndex hash secondHash size = cuckooKickIndexMem (cuckooFirstIndex hash size) secondHash size
-      ∧ cuckooKickIndexMem = cuckooKickIndexRedis := by
-  constructor
-  · simp [cuckooSecondIndex, cuckooKickIndexMem, cuckooFirstIndex, UInt64.xor_comm]
-  · funext a b c; simp [cuckooKickIndexMem, cuckooKickIndexRedis, UInt64.xor_comm]
-
-example : (cuckooSecondIndex 1000 77 64).toNat = 37
-    ∧ Cuckoo.altOf (fun _ : Unit => 77) 64 (1000 % 64) () = 37 := by decide
-example : (cuckooKickIndexMem 40 77 64).toNat = 37 := by decide
-
-/-! ### Bloom filter: the integer part of `getIndex` -/
-
-/-- `(hashes[0] + j*hashes[1] + cubic) % uint64(size)` with `j = uint64(i)` is `Bloom.getIndex`,
-    PROVIDED the float sub-term `uint64(math.Floor((j^3 - j)/6))` (an opaque input `cubic` of the
-    generated definition; floats are not modelled) has the value the model assumes. -/
-theorem tie_bloomIndexInt (h0 h1 i cubic size : UInt64) (_hs : size ≠ 0)
-    (hcubic : cubic.toNat = (i.toNat ^ 3 - i.toNat) / 6) :
-    (bloomIndexInt h0 h1 i cubic size).toNat
-      = Bloom.getIndex h0.toNat h1.toNat i.toNat size.toNat := by
-  unfold Bloom.getIndex
-  rw [← hcubic]
-  simp only [bloomIndexInt, UInt64.toNat_mod, UInt64.toNat_add, UInt64.toNat_mul]
-  mod64_congr
-
-example : (bloomIndexInt 18446744073709551610 7 5 20 11).toNat = 5
-    ∧ Bloom.getIndex 18446744073709551610 7 5 11 = 5 ∧ (5 ^ 3 - 5) / 6 = 20 := by decide
 
 end Gostatix.ArithTie
